@@ -183,6 +183,8 @@ void gen_history(Tape &t, Case &c, int maxlen, bool allow_copy, int solve_weight
 
 static void c05_gen(Tape &t, Case &c) { g_adaptive_tail = true; gen_history(t, c, 14, true, 3); g_adaptive_tail = false; }
 
+void c05_gen_public(Tape &t, Case &c) { c05_gen(t, c); }
+
 // fresh exact solve of a model -> (status, value); status 0 on error
 static void scratch_solve(const Model &m, int &status, Q &value, Solution *sol) {
   status = 0;
